@@ -519,7 +519,7 @@ Theorem run_hits_same_mark vv reqs j i hj :
 Proof.
   intros H1 H2 H3. destruct (run_sound vv reqs [] [] (inv_empty vv) j i hj H1 H2) as (hi & G1 & G2 & G3 & G4).
   - cbn [lenN]. lia.
-  - exists hi. cbn [lenN app] in *. repeat split; try assumption. lia.
+  - exists hi. cbn [lenN app] in *. repeat split; try assumption; try lia.
 Qed.
 
 (* ... hence every nominated field reads the same in both requests *)
@@ -601,3 +601,15 @@ Proof.
   - split; [tauto|reflexivity].
   - injection G as G. split; [split; discriminate|exact G].
 Qed.
+
+(* ================================================================== *)
+(* 7. concrete values for the Examples in Properties_C13.v              *)
+Definition n_xfoo := b [88;45;70;111;111]%nat.                       (* X-Foo *)
+Definition n_xfoo_lc := b [120;45;102;111;111]%nat.                  (* x-foo *)
+Definition n_noise := b [88;45;78;111;105;115;101]%nat.              (* X-Noise *)
+Definition n_accept_encoding := b [65;99;99;101;112;116;45;69;110;99;111;100;105;110;103]%nat.
+Definition ex_req (v : list nat) (noise : list nat) : list hdr :=
+  [{| h_name := n_noise; h_value := b noise |}; {| h_name := n_xfoo_lc; h_value := b v |}].
+Definition ex_vary_xfoo : list bytes := [b [32;88;45;70;111;111;32;44]%nat].      (* " X-Foo ," *)
+Definition ex_vary_star : list bytes := [b [88;45;70;111;111;44;32;42]%nat].       (* "X-Foo, *" *)
+Definition ex_quote_pct : list nat := [97;34;37;233]%nat.                          (* a, DQUOTE, percent, 0xE9 *)
